@@ -14,3 +14,4 @@ def check(ctx, prog):
     process.rule_marker_worker(ctx, prog)  # scope: a worker whose search overflowed does not announce completion
     dispatch.rule_mode_arith(ctx, prog)  # scope: the capacity guards hold in both execution modes
     dispatch.rule_swallowed_raise(ctx, prog)
+    capacity.rule_index_width(ctx, prog)  # the arrays that carry shared-domain indices have one integer type
